@@ -30,8 +30,8 @@ from typing import Any, Dict, Iterable, List, Optional, Tuple
 from . import jsonx
 
 VERIF_ROOT = os.path.dirname(os.path.dirname(os.path.abspath(__file__)))
-EVIDENCE_DIR = os.path.join(VERIF_ROOT, "evidence")
-REPLAY_DIR = os.path.join(VERIF_ROOT, "replays")
+EVIDENCE_DIR = os.environ.get("VERIF_EVIDENCE_DIR") or os.path.join(VERIF_ROOT, "evidence")
+REPLAY_DIR = os.environ.get("VERIF_REPLAY_DIR") or os.path.join(VERIF_ROOT, "replays")
 REGRESSION_DIR = os.path.join(VERIF_ROOT, "regressions")
 KNOWN_FINDINGS = os.path.join(VERIF_ROOT, "known_findings.json")
 
